@@ -11,6 +11,8 @@ grep '^fixed:' KNOWN_FINDINGS.txt | while read -r line; do
   [ -z "$files" ] && { echo "$prop $commit: no regression file (covered by the check itself)"; continue; }
   wt=/tmp/regress_$$
   git -C /repo worktree add -q --detach "$wt" "${commit}^" || continue
+  # the harness needs the verifhook package as it is today (hook H4 is younger than most fixes): overlay it, nothing else
+  mkdir -p "$wt/verifhook" && cp /repo/verifhook/*.go "$wt/verifhook/"
   for f in $files; do
     before=$(VERIF_REPO=$wt ./check "$prop" --replay "$f" 2>&1 | grep -c '^VIOLATION')
     after=$(./check "$prop" --replay "$f" 2>&1 | grep -c '^VIOLATION')
